@@ -166,6 +166,22 @@ func (w *hWalk) value(v value.Value) {
 }
 
 func (w *hWalk) typ(t types.Type) {
+	if t == nil {
+		return
+	}
+	if _, isStruct := t.(*types.StructType); !isStruct && t.Name() != "" {
+		// a named type that is not a struct (`%w = type i32`, and any further
+		// name for it): the object must be one the module lists
+		listed := false
+		for _, d := range w.m.TypeDefs {
+			if d == t {
+				listed = true
+			}
+		}
+		if !listed {
+			w.fail("named non-struct type that the module does not list")
+		}
+	}
 	switch x := t.(type) {
 	case nil:
 		return
